@@ -9,6 +9,7 @@ import (
 	"path/filepath"
 	"runtime/debug"
 	"strconv"
+	"strings"
 	"time"
 
 	"defracheck/internal/eng"
@@ -22,6 +23,7 @@ func main() {
 	replay := flag.String("replay", "", "replay file: re-evaluate that obligation on the current tree")
 	verif := flag.String("verif", "", "verif dir (default: parent of the binary's dir)")
 	list := flag.Bool("list", false, "list registered properties")
+	debug := flag.String("debug", "", "debug dump, e.g. errflow:internal/db/...,internal/core/...")
 	flag.Parse()
 	if *list {
 		for _, id := range rules.IDs() {
@@ -38,6 +40,15 @@ func main() {
 		*tier = t
 	}
 	seed, _ := strconv.Atoi(os.Getenv("VERIF_SEED"))
+	if strings.HasPrefix(*debug, "errflow:") {
+		p, err := eng.Load(*repo)
+		if err != nil {
+			fmt.Println(err)
+			os.Exit(1)
+		}
+		rules.DebugErrFlow(p, strings.Split(strings.TrimPrefix(*debug, "errflow:"), ","))
+		return
+	}
 	if *replay != "" {
 		os.Exit(doReplay(*repo, vdir, *replay, seed))
 	}
